@@ -88,7 +88,11 @@ OUTSIDE = [
 
 UNROLL = B(2, 4)
 SMAX = 80
-LMAX = B(3, 4)
+# NB partition lists are computed in the runner's parent process, where B() only has the right value if VERIF_TIER was
+# exported before vlib.boot was imported (it was not in the first runner: the thorough partitions then silently covered
+# the quick bounds only).  They are therefore written from explicit per-tier constants, never from B().
+LMAX_Q, LMAX_T = 3, 4
+LMAX = B(LMAX_Q, LMAX_T)
 
 
 # ----------------------------------------------------------------------------------------------------------------------
@@ -183,12 +187,12 @@ def _classes(i: int) -> List[str]:
     return [f"d[{i}] < '0'", f"'0' <= d[{i}] <= '9'", f"'9' < d[{i}] < 'a'", f"'a' <= d[{i}] <= 'z'", f"d[{i}] > 'z'"]
 
 
-_SAN_PARTS = [f"len(d) == {k}" for k in range(LMAX)] + B(
-    [f"len(d) == {LMAX} and {c}" for c in _classes(0)],
-    [f"len(d) == {LMAX} and {c0} and {c1}" for c0 in _classes(0) for c1 in _classes(1)])
+_SAN_PARTS_Q = [f"len(d) == {k}" for k in range(LMAX_Q)] + [f"len(d) == {LMAX_Q} and {c}" for c in _classes(0)]
+_SAN_PARTS_T = [f"len(d) == {k}" for k in range(LMAX_T)] + [
+    f"len(d) == {LMAX_T} and {c0} and {c1}" for c0 in _classes(0) for c1 in _classes(1)]
 
 
-@obligation(quick=240, thorough=900, partitions_quick=_SAN_PARTS, partitions_thorough=_SAN_PARTS,
+@obligation(quick=240, thorough=900, partitions_quick=_SAN_PARTS_Q, partitions_thorough=_SAN_PARTS_T,
             what="sanitiser statements (three re.sub) on ANY string d: output over [a-z0-9-], no leading/trailing/double "
                  "hyphen, same [a-z0-9] projection as d",
             bounds={"len(d)": "0..LMAX (3 quick / 4 thorough), arbitrary Unicode code points"})
@@ -205,9 +209,12 @@ def ob_sanitiser(d: str) -> bool:
 # end to end on pooled characters (Engine S)
 # ----------------------------------------------------------------------------------------------------------------------
 POOL = ["a", "Z", "7", "-", "é", "K", " ", "_", "İ"]   # é, KELVIN SIGN (lower() == 'k'), İ (lower() is 2 chars)
-NPOOL = B(6, 9)
-ELEN = B(3, 4)
-NPOOL_TOP = 6          # names of the maximal length ELEN use the first 6 pool characters (9**4 * 8 paths are out of budget)
+NPOOL_Q, NPOOL_T = 6, 9
+ELEN_Q, ELEN_T = 3, 4
+TOP_Q, TOP_T = 6, 5    # names of the maximal length ELEN use the first TOP pool characters (9**4 * 8 paths are out of budget)
+NPOOL = B(NPOOL_Q, NPOOL_T)
+ELEN = B(ELEN_Q, ELEN_T)
+NPOOL_TOP = B(TOP_Q, TOP_T)
 HEXD = "0123456789abcdef"
 HEX1 = "b1234"   # second draw of the end-to-end stub
 
@@ -251,13 +258,13 @@ def _check_id(name: str, force: bool, avail0: bool, hex0: str, alpha0: str, rid:
 
 
 @obligation(quick=240, thorough=900,
-            partitions_quick=[f"n == {k}" for k in range(ELEN)] + [f"n == {ELEN} and i0 == {c}" for c in range(NPOOL_TOP)],
-            partitions_thorough=[f"n == {k}" for k in range(ELEN - 1)] + [f"n == {ELEN - 1} and i0 == {c}" for c in range(NPOOL)]
-            + [f"n == {ELEN} and i0 == {c} and i1 {d}" for c in range(NPOOL_TOP) for d in ("<= 2", ">= 3")],
+            partitions_quick=[f"n == {k}" for k in range(ELEN_Q)] + [f"n == {ELEN_Q} and i0 == {c}" for c in range(TOP_Q)],
+            partitions_thorough=[f"n == {k}" for k in range(ELEN_T - 1)] + [f"n == {ELEN_T - 1} and i0 == {c}" for c in range(NPOOL_T)]
+            + [f"n == {ELEN_T} and i0 == {c} and i1 {d}" for c in range(TOP_T) for d in ("<= 2", ">= 3")],
             what="whole lifted find_deployment_id on names assembled from a character pool (upper case, digit, hyphen, space, "
                  "non-ASCII, special lower()): valid DNS-1035 label <= 63, derived from the lowercase alphanumerics, suffix when short",
             bounds={"name length": "0..ELEN (3 quick / 4 thorough)",
-                    "pool": "6 quick / 9 thorough characters (names of length ELEN: the first 6)",
+                    "pool": "6 quick / 9 thorough characters (names of length ELEN: the first 6 quick / 5 thorough)",
                     "first hex draw": "digit or letter", "availability": "first check free/taken", "force_suffix": "both"})
 def ob_end_to_end(n: int, i0: int, i1: int, i2: int, i3: int, force: bool, avail0: bool, hdigit: bool) -> bool:
     """
@@ -462,6 +469,13 @@ def _native_derivation(w, unroll=None) -> bool:
     return True
 
 
+def _reach(ctx, enc: "_Enc", name: str, cond, note: str) -> None:
+    """vacuity guard for one case of the encoding: ``cond`` has to be satisfiable together with the assumptions (the
+    query itself is trivially unsat; an unreachable case comes back ``vacuous`` and the obligation is not discharged)"""
+    ctx.check(f"reach[{name}]", assumptions=enc.assumptions() + [cond], negated_property=z3.BoolVal(False),
+              variables={"n": enc.n}, replay=None, cross_check=False, note="reachability: " + note)
+
+
 def _test_literals() -> List[str]:
     """first arguments of the find_deployment_id(...) calls of the repo's own test file (read by AST) + boundary strings"""
     names: List[str] = []
@@ -483,7 +497,8 @@ def _test_literals() -> List[str]:
 # (force_suffix, answers of the availability checks): no retry / forced suffix + one retry (two draws: one before the
 # loop, one inside) / as many retries as the unrolled loop admits (the last unrolled iteration returns) / forced suffix
 # accepted at once
-_TV_RUNS = [(False, [True]), (True, [False, True]), (False, [False] * (UNROLL - 1) + [True]), (True, [True])]
+def _tv_runs(unroll: int):
+    return [(False, [True]), (True, [False, True]), (False, [False] * (unroll - 1) + [True]), (True, [True])]
 
 
 def _translation_validation(ctx, enc: "_Enc") -> None:
@@ -497,7 +512,7 @@ def _translation_validation(ctx, enc: "_Enc") -> None:
         s = _TAIL(name.lower())
         if len(s) > SMAX:
             continue
-        for r, (force, answers) in enumerate(_TV_RUNS):
+        for r, (force, answers) in enumerate(_tv_runs(enc.unroll)):
             hexes = ["7c0fe", "c0ffe", "0dead", "beef1", "12345"][:ncalls]
             alphas = ["e", "f", "a", "b", "c"][:ncalls]
             avail = (answers + [True] * ncalls)[:ncalls]
@@ -540,6 +555,12 @@ def ob_tail_dns1035(ctx):
     note = f"regex {_DNS_PATTERN!r}; sanitiser statements {enc.sanitiser_patterns}; lifted source {source_sha(K8S, ['find_deployment_id', '_append_random_suffix'])}; {len(enc.outcomes)} guarded outcomes"
     ctx.check("dns1035", assumptions=enc.assumptions() + link, negated_property=z3.Or(*viol), variables=enc.variables(),
               replay=_native_dns, note=note)
+    rets = enc.returned()
+    if len(rets) < 2:
+        raise T.Untranslatable("fewer than two return outcomes: the retry loop was not translated")
+    for i, (g, _val) in enumerate(rets):
+        _reach(ctx, enc, f"return{i}", g, f"return outcome {i} of {len(rets)} is taken by some input")
+    _reach(ctx, enc, "cut", z3.And(some, R.n == 63), "some returned id is 63 characters long")
     _translation_validation(ctx, enc)
 
 
@@ -568,6 +589,7 @@ def ob_tail_derivation(ctx):
     be = enc.be
     ps = _spec_ps(enc)
     viol = []
+    seen: Dict[str, List[Any]] = {"plain": [], "suffix": [], "only-suffix": []}
     for g, r in enc.returned():
         plain = z3.And(r.n <= ps.n, be.eq_prefix(r, ps, r.n), r.n >= _min(ps.n, z3.IntVal(63)) - 1)
         sfx = []
@@ -575,8 +597,11 @@ def ob_tail_derivation(ctx):
             x = r.n - 6
             tail_ok = z3.And(r.at(x) == 45, *[r.at(x + 1 + t) == enc.hex[j][t] for t in range(5)])
             sfx.append(z3.And(x >= 1, x <= ps.n, be.eq_prefix(r, ps, x), tail_ok, x >= _min(ps.n, z3.IntVal(57)) - 1))
+            seen["suffix"].append(z3.And(g, sfx[-1]))
             first = z3.If(z3.And(enc.hex[j][0] >= 48, enc.hex[j][0] <= 57), enc.alpha[j], enc.hex[j][0])
             sfx.append(z3.And(ps.n == 0, r.n == 5, r.at(0) == first, *[r.at(t) == enc.hex[j][t] for t in range(1, 5)]))
+            seen["only-suffix"].append(z3.And(g, sfx[-1]))
+        seen["plain"].append(z3.And(g, plain))
         has_sfx = z3.Or(*sfx)
         ok = z3.And(z3.Or(plain, has_sfx),
                     z3.Implies(ps.n < 3, has_sfx),
@@ -585,6 +610,8 @@ def ob_tail_derivation(ctx):
     viol += enc.bad_outcomes() + enc.unsafe()
     ctx.check("derivation", assumptions=enc.assumptions(), negated_property=z3.Or(*viol), variables=enc.variables(),
               replay=_native_derivation, note=f"{len(enc.outcomes)} guarded outcomes")
+    for shape, conds in seen.items():
+        _reach(ctx, enc, shape, z3.Or(*conds) if conds else z3.BoolVal(False), f"some returned id has the shape '{shape}'")
 
 
 def replay_known(name: str, witness) -> bool:
